@@ -224,10 +224,9 @@ def check_handlers(ix, rep, cls, hs):
             pass
         if op is not None:
             # if flag: sat_<op> else: unsat_<op>
-            the_if = [s for s in f.node.body if isinstance(s, ast.If) and ast.unparse(s.test) == 'flag']
-            if the_if:
-                sat = [c for c in ast.walk(ast.Module(body=the_if[0].body, type_ignores=[])) if isinstance(c, ast.Call) and isinstance(c.func, ast.Name)]
-                uns = [c for c in ast.walk(ast.Module(body=the_if[0].orelse, type_ignores=[])) if isinstance(c, ast.Call) and isinstance(c.func, ast.Name)]
+            choice = _polarity_choice(f.node)
+            if choice is not None:
+                sat, uns = choice
                 got = (sat[0].func.id if sat else None, uns[0].func.id if uns else None)
                 want = ('explain_sat_%s' % op, 'explain_unsat_%s' % op)
                 if got == want:
@@ -309,6 +308,8 @@ def check_handlers(ix, rep, cls, hs):
                 break      # pointwise: polarity per (operand, offset) is derived from the operator summary in check_footprints
             child = ast.unparse(c.args[0])
             pol = ast.unparse(c.args[1].elts[1]).replace(' ', '')
+            pv_ = _polarity_var(f.node)
+            pol = {pv_: 'flag', 'not' + pv_: 'notflag', '(not' + pv_ + ')': 'notflag'}.get(pol, pol)
             k = 0 if child.endswith('children[0]') else 1
             flip = (nc.name == 'Neg') or (nc.name == 'Implies' and k == 0)
             want = 'notflag' if flip else 'flag'
@@ -376,6 +377,62 @@ def _shift_table(rep, hs):
     table[fb.node.name] = 0
     rep._shift_table = table
     return table
+
+
+def _polarity_var(fnode):
+    """the local that holds the polarity handed down (args[1])"""
+    for st in fnode.body:
+        if isinstance(st, ast.Assign) and len(st.targets) == 1:
+            t, v = st.targets[0], st.value
+            if isinstance(t, ast.Name) and ast.unparse(v).replace(' ', '') == 'args[1]':
+                return t.id
+            if isinstance(t, ast.Tuple) and len(t.elts) == 2 and isinstance(t.elts[1], ast.Name):
+                if ast.unparse(v).replace(' ', '') in ('args', 'args[0],args[1]', '(args[0],args[1])', 'args[:2]', 'args[0:2]'):
+                    return t.elts[1].id
+    return 'flag'
+
+
+def _polarity_choice(fnode):
+    """how a handler picks its helper by polarity -> ([calls made when satisfied], [calls made when violated]) or None.
+    `if flag: A(..) else: B(..)`, the same with `not flag` and the arms exchanged, `h = A if flag else B; h(..)` and `(A if flag else B)(..)`"""
+    pv = _polarity_var(fnode)
+
+    def pol(t):
+        if isinstance(t, ast.Name) and t.id == pv:
+            return True
+        if isinstance(t, ast.UnaryOp) and isinstance(t.op, ast.Not) and isinstance(t.operand, ast.Name) and t.operand.id == pv:
+            return False
+        if isinstance(t, ast.Compare) and len(t.ops) == 1 and isinstance(t.left, ast.Name) and t.left.id == pv and isinstance(t.comparators[0], ast.Constant) \
+                and isinstance(t.comparators[0].value, bool) and isinstance(t.ops[0], (ast.Eq, ast.Is, ast.NotEq, ast.IsNot)):
+            positive = t.comparators[0].value
+            return positive if isinstance(t.ops[0], (ast.Eq, ast.Is)) else not positive
+        return None
+
+    def calls(stmts):
+        return [c for c in ast.walk(ast.Module(body=list(stmts), type_ignores=[])) if isinstance(c, ast.Call) and isinstance(c.func, ast.Name)]
+    for st in fnode.body:
+        if isinstance(st, ast.If) and pol(st.test) is not None:
+            a, b = calls(st.body), calls(st.orelse)
+            return (a, b) if pol(st.test) else (b, a)
+    # a helper chosen by a conditional expression
+    chosen = {}
+    for st in fnode.body:
+        if isinstance(st, ast.Assign) and len(st.targets) == 1 and isinstance(st.targets[0], ast.Name) and isinstance(st.value, ast.IfExp) \
+                and pol(st.value.test) is not None and isinstance(st.value.body, ast.Name) and isinstance(st.value.orelse, ast.Name):
+            chosen[st.targets[0].id] = st.value
+    for c in ast.walk(fnode):
+        if not isinstance(c, ast.Call):
+            continue
+        sel = None
+        if isinstance(c.func, ast.Name) and c.func.id in chosen:
+            sel = chosen[c.func.id]
+        elif isinstance(c.func, ast.IfExp) and pol(c.func.test) is not None and isinstance(c.func.body, ast.Name) and isinstance(c.func.orelse, ast.Name):
+            sel = c.func
+        if sel is not None:
+            a = ast.copy_location(ast.Call(func=sel.body, args=c.args, keywords=c.keywords), c)
+            b = ast.copy_location(ast.Call(func=sel.orelse, args=c.args, keywords=c.keywords), c)
+            return ([a], [b]) if pol(sel.test) else ([b], [a])
+    return None
 
 
 def selection_of(fnode):
